@@ -19,7 +19,7 @@ def g1_pairs(tier):
     rs = (4.5, 5.5, 6.5, 7.5, 8.5, 9.5) if q else (4.0, 4.5, 5.0, 5.5, 6.0, 6.5, 7.0, 7.5, 8.0, 8.5, 9.5)
     step = 30 if q else 20
     rises = (0.0,) if q else (0.0, 0.7, -0.7)
-    tilts = (0.0,) if q else (0.0, 15.0, -15.0)
+    tilts = (0.0,) if q else (0.0, 15.0)
     k = 0
     for (l1, l2), r, th, ph, flip, rise, tilt in itertools.product(combos, rs, range(0, 360, step), range(0, 360, step), (False, True), rises, tilts):
         # identity modes rotate over the lattice: ascending numbers, descending numbers (file order need not be sorted order),
